@@ -111,8 +111,10 @@ def code_text(c):
 
 def run_cert(kind, tier, seed, C, tz=None):
     env = dict(C["ENV"])
-    if tz: env["TZ"] = tz
-    tag = kind + ("-" + tz.replace("/", "_") if tz else "")
+    if tz and "=" in tz:      # "<stream>@NAME=value": another environment variable (e.g. GOMAXPROCS=3)
+        k, v = tz.split("=", 1); env[k] = v
+    elif tz: env["TZ"] = tz
+    tag = kind + ("-" + re.sub(r"\W", "_", tz) if tz else "")
     p = subprocess.run([os.path.join(C["VERIF"], "harness", "harness"), kind, tier, str(seed)], capture_output=True, text=True, env=env, timeout=7200)
     if p.returncode != 0:
         return {"cases": 0, "nontrivial": 0, "samples": [], "violations": [], "error": "harness %s failed: %s" % (kind, p.stderr[-300:])}
